@@ -14,7 +14,11 @@ ASSUMPTIONS = [
     "(saveToDB) parameter's effective value (unset == default, as the database documents), component area",
     "documented normalisations: sequences come back as arrays; an unset dimension (None) comes back as 0; names/strings compare "
     "by text; the loaded tree is in sort() order, so the original is sorted after writing before it is observed",
-    "floats are compared exactly (HDF5 stores float64) except derived areas (rel 1e-12)",
+    "floats are compared exactly (HDF5 stores float64)",
+    "components inside a block are matched by name rather than by position (their sort key depends on derived-shape state at "
+    "sort time); assemblies in the core/pool and blocks in an assembly are compared in order",
+    "material internals other than the theoretical-density fraction (which armi restores explicitly) are not compared: armi "
+    "rebuilds a default material instance on load and restores composition through the number densities",
 ]
 
 BLOCK_PARAMS = [
@@ -259,13 +263,19 @@ def _normalise(rec):
             rec["params"] = p
     if "params" in rec:
         p = dict(rec["params"])
-        for name in DERIVED_ON_LOAD.get(rec["type"], DERIVED_ON_LOAD["*"] if comp is not None else ()):
+        key = "HexBlock" if rec["type"].endswith("Block") else rec["type"]
+        for name in DERIVED_ON_LOAD.get(key, DERIVED_ON_LOAD["*"] if comp is not None else ()):
             p.pop(name, None)
         for k, v in list(p.items()):
             if isinstance(v, list) and len(v) == 0:
                 p[k] = None  # documented: an empty entry comes back unset
         rec["params"] = p
     rec["children"] = [_normalise(c) for c in rec["children"]]
+    if rec["type"].endswith("Block"):
+        # Component order inside a block is decided by Component.__lt__, which for the derived (coolant) shape depends on
+        # the block's state at the moment of sorting; armi sorts at load time, the harness later.  Components are matched
+        # by name (unique within a block); assemblies in the core and blocks in an assembly are compared in order.
+        rec["children"] = sorted(rec["children"], key=lambda c: c["name"])
     return rec
 
 
